@@ -6,8 +6,8 @@
    the proof cones of the properties that are about that area (gen/Pure.v itself always compiles). *)
 (* The tie proofs avoid depending on the shape of the generated term: they unfold the combinators on both sides,
    inline the lets, split on every test ([tie_break]) and close the leaves with [lia] / congruence of the list
-   operations ([tie_close]); callee functions are rewritten with their own tie theorem.
-   This file does not depend on gen/Pure.v. *)
+   operations ([tie_close]); callee functions are rewritten with their own tie theorem, private helpers are unfolded
+   (see the description of [tie] below).  This file does not depend on gen/Pure.v. *)
 From EV Require Import Base.Bytes gen.Consts Base.GoSem Helpers.Helpers.
 
 Lemma go_index_nth (s : bytes) (i : nat) (b : byte) :
@@ -52,12 +52,59 @@ Example go_for_range_examples :
   /\ go_for_range 0 3 (fun i => if (i =? 1)%Z then None else @go_continue Z) = None.
 Proof. repeat split. Qed.
 
-Ltac is_nat_num n := lazymatch n with O => idtac | S ?m => is_nat_num m end.
-(* closed conversions of small index constants: Z.to_nat 1 ~> 1%nat, so that both sides name the same element *)
+(* (b & flag) for a single-bit flag: either the flag or 0, whichever test the code applies to it afterwards
+   ((b & f) != 0, (b & f) == f, ...) *)
+Lemma land_pow2 (x k : N) : N.land x (2 ^ k) = if N.testbit x k then (2 ^ k)%N else 0%N.
+Proof.
+  apply N.bits_inj. intros n. rewrite N.land_spec, N.pow2_bits_eqb.
+  destruct (N.eqb_spec k n) as [->|Hne].
+  - rewrite Bool.andb_true_r. destruct (N.testbit x n) eqn:E.
+    + rewrite N.pow2_bits_true. reflexivity.
+    + rewrite N.bits_0. reflexivity.
+  - rewrite Bool.andb_false_r. destruct (N.testbit x k).
+    + rewrite N.pow2_bits_false by exact Hne. reflexivity.
+    + rewrite N.bits_0. reflexivity.
+Qed.
+
+(* ------------------------------------------------------------------------------------------------------------
+   The generic tie tactic.  A tie proof is `intros; unfold P.<root>, <model function>; tie.` and nothing else;
+   [tie] does not depend on the shape of the generated body:
+     1. callees that have a tie theorem of their own are rewritten with it (rewrite database [pure_tie]; every
+        PureTie_*.v file registers its theorems there);
+     2. every other generated function in the goal -- the private helpers a refactoring may introduce, under any
+        name -- is unfolded (unfold database [pure_gen], filled by gen/Pure.v itself);
+     3. the GoSem vocabulary and the model's vocabulary are unfolded down to list operations and comparisons of
+        numbers, integer constants are replaced by their values, lets are inlined, single-bit masks become
+        bit tests ([tie_bits]), && || ! become conditionals;
+     4. every test that occurs in the goal is split ([tie_break], innermost first);
+     5. the leaves are closed by reflexivity / lia / congruence under the facts collected on the way.
+   ------------------------------------------------------------------------------------------------------------ *)
+Ltac tie_callees := try (progress autorewrite with pure_tie); try (repeat (progress autounfold with pure_gen)).
+
+(* closed conversions of small index constants: Z.to_nat 1 ~> 1%nat, Z.to_nat (Z.of_N 8) ~> 8%nat, so that both sides
+   name the same element.  Only an argument that is syntactically a closed arithmetic expression is evaluated, in
+   binary, and converted to a unary numeral only when it is below 4096 (evaluating an open term, or a large one,
+   towards nat does not terminate in practice). *)
+Ltac closed_pos p := lazymatch p with xH => idtac | xO ?q => closed_pos q | xI ?q => closed_pos q end.
+Ltac closed_num z :=
+  lazymatch z with
+  | Z0 => idtac | Zpos ?p => closed_pos p | Zneg ?p => closed_pos p | N0 => idtac | Npos ?p => closed_pos p
+  | Z.of_N ?a => closed_num a | Z.to_N ?a => closed_num a | Z.opp ?a => closed_num a
+  | Z.add ?a ?b => closed_num a; closed_num b | Z.sub ?a ?b => closed_num a; closed_num b
+  | Z.mul ?a ?b => closed_num a; closed_num b | Z.modulo ?a ?b => closed_num a; closed_num b
+  | N.add ?a ?b => closed_num a; closed_num b | N.sub ?a ?b => closed_num a; closed_num b
+  | N.mul ?a ?b => closed_num a; closed_num b | N.modulo ?a ?b => closed_num a; closed_num b
+  end.
 Ltac tie_nums :=
   repeat match goal with
-  | |- context [Z.to_nat ?z] => let v := eval cbv in (Z.to_nat z) in is_nat_num v; progress change (Z.to_nat z) with v
-  | |- context [N.to_nat ?z] => let v := eval cbv in (N.to_nat z) in is_nat_num v; progress change (N.to_nat z) with v
+  | |- context [Z.to_nat ?z] =>
+    closed_num z; let v := eval cbv in z in
+    let small := eval cbv in (Z.ltb v 4096) in constr_eq small true;
+    let n := eval cbv in (Z.to_nat v) in progress change (Z.to_nat z) with n
+  | |- context [N.to_nat ?z] =>
+    closed_num z; let v := eval cbv in z in
+    let small := eval cbv in (N.ltb v 4096) in constr_eq small true;
+    let n := eval cbv in (N.to_nat v) in progress change (N.to_nat z) with n
   end.
 (* every constant of type N or Z whose body is a numeral (the integer constants of gen/Consts.v, whichever the
    current Go code refers to -- a refactoring may introduce new ones --, two64, ...) is replaced by its value *)
@@ -71,21 +118,36 @@ Ltac tie_consts :=
     lazymatch v with N0 => idtac | Npos _ => idtac | Z0 => idtac | Zpos _ => idtac | Zneg _ => idtac end;
     progress change c with v in *
   end.
+(* N.land x c, c a literal power of two: the bit test *)
+Ltac tie_bits :=
+  repeat match goal with
+  | |- context [N.land ?x ?c] =>
+    lazymatch c with Npos _ => idtac end;
+    let k := eval cbv in (N.log2 c) in
+    let p := eval cbv in (2 ^ k)%N in
+    constr_eq p c;
+    replace (N.land x c) with (if N.testbit x k then c else 0%N) by (symmetry; exact (land_pow2 x k))
+  end.
 (* the vocabulary of both sides, down to list operations and comparisons of numbers *)
 Ltac tie_unfold :=
   unfold go_slice_to, go_slice, go_slice_from, go_make_bytes, go_index, go_set_index, go_len, bytes_equal, bytes_has_prefix, bytes_has_suffix, go_deref,
+    go_append, go_big_uint64_bytes, go_bytes_lit,
     go_break, go_continue, int_add, int_sub, int_mul, wrap_int, two63Z, two64Z,
     u8_add, u8_sub, u8_mul, u32_add, u32_sub, u32_mul, u64_add, u64_sub, u64_mul, u_and, u_or,
     is_empty_address, slice_to, slice, index, blen, zeros, mask, bor, two64, two32 in *;
   tie_consts;
-  unfold go_ret, go_bind, option_map in *; cbv zeta; tie_nums; cbn [skipn] in *.
+  unfold go_ret, go_bind, option_map in *; cbv zeta; tie_nums; cbn [skipn List.map] in *;
+  tie_bits;
+  unfold andb, orb, negb, Bool.eqb in *.
 Ltac tie_destruct x :=
   lazymatch x with
   | context [match ?y with _ => _ end] => tie_destruct y
   | _ => destruct x eqn:?
   end.
+(* ([tie_bits] again at every step: a mask applied to a value bound by a panic-monad bind is only reachable once the
+   bind has been split) *)
 Ltac tie_break :=
-  repeat (cbv beta iota;
+  repeat (cbv beta iota; tie_bits;
           match goal with
           | |- context [match ?x with _ => _ end] => tie_destruct x
           end);
@@ -96,6 +158,8 @@ Ltac tie_facts :=
   | H : Some _ = Some _ |- _ => inversion H; clear H; subst
   | H : Some _ = None |- _ => discriminate H
   | H : None = Some _ |- _ => discriminate H
+  | H : true = false |- _ => discriminate H
+  | H : false = true |- _ => discriminate H
   | H : nth_error _ _ = None |- _ => apply nth_error_None in H
   | H : nth_error ?l ?i = Some _ |- _ =>
     lazymatch goal with
@@ -110,5 +174,7 @@ Ltac tie_rew :=
   | H : ?t = false |- context [?t] => rewrite H
   end; cbv beta iota.
 Ltac tie_close0 := first [tie_eq | exfalso; lia | exfalso; congruence].
-Ltac tie_close := tie_facts; cbn [length] in *; first [tie_close0 | tie_rew; tie_close0].
-Ltac tie := tie_unfold; tie_break; try tie_close.
+(* lengths of the list operations that slices, make and append unfold to: lia knows min and - *)
+#[global] Hint Rewrite Nat2Z.id Nat2N.id firstn_length skipn_length repeat_length app_length map_length : tie_len.
+Ltac tie_close := tie_facts; cbn [length] in *; first [tie_close0 | tie_rew; tie_close0 | autorewrite with tie_len in *; tie_close0].
+Ltac tie := tie_callees; tie_unfold; tie_break; try tie_close.
